@@ -17,6 +17,7 @@
 -/
 import RdfModel.Proofs.C11RaWalk
 import RdfModel.Proofs.C11RaBlocks
+import RdfModel.Proofs.C11RaFragment
 import RdfModel.Driver.RdfaDec
 namespace RdfModel.C11Ra
 open RdfModel RdfModel.Rdfad
@@ -194,6 +195,100 @@ theorem rdfa_refines_denote_resource_partial (E : Env) (cfg : Cfg) (ctx : Ctx) (
     (walk E cfg false ctx st (resBlock i s pv r)).bad = none ∧
     (walk E cfg false ctx st (resBlock i s pv r)).out = st.out ++ [⟨S, p, O.term⟩] :=
   resource_block E cfg ctx st i s pv r S O p hbad hinc hmap hS hO hP
+
+/-! #### on the attribute TEXT (resolver hypotheses discharged)
+
+  `refIRI prefixes v = some i`: the text `v` is an absolute IRI whose scheme is not a prefix in scope (then `i = v`) or a CURIE
+  whose prefix is in scope (then `i` = expansion ++ reference) — decidable on the text and the in-scope mapping alone;
+  `resolveIRI_ref` proves that the decoder's resolveIRI then returns `i` whatever the base, vocabulary, term mappings, oracle and
+  state are.  `predIRI` / `typeIRI`: a one-token @property/@rel / @typeof value with such a token.  Blank-node references
+  (`_:l`: they change the label map), terms, relative references (oracle-dependent) and bracketed CURIEs stay outside. -/
+
+/-- resolveIRI on the text of an absolute IRI / in-scope CURIE -/
+theorem rdfa_resolve_text (E : Env) (st : St) (prefixes : List (Bytes × Bytes)) (v : Bytes) (base : Option Bytes)
+    (dv : Option Vocab) (safe terms : Bool) (i : Bytes) (h : refIRI prefixes v = some i) :
+    resolveIRI E st prefixes v base dv safe terms = (some (.iri i), st) :=
+  resolveIRI_ref E st prefixes v base dv safe terms i h
+
+/-- `<span about=s property=pv content=c lang=lg>` ↦ `S p "c"(@lg)` -/
+theorem rdfa_refines_denote_literal_text_partial (E : Env) (cfg : Cfg) (ctx : Ctx) (st : St) (i : Nat)
+    (s pv c lg S p : Bytes) (hbad : st.bad = none) (hinc : ctx.incomplete = []) (hmap : st.getMap ctx.listMapping = [])
+    (hs : refIRI ctx.prefixes s = some S) (hp : predIRI ctx.prefixes pv = some p) :
+    (walk E cfg false ctx st (litBlock i s pv c lg)).bad = none ∧
+    (walk E cfg false ctx st (litBlock i s pv c lg)).out = st.out ++ [⟨.iri S, p, plainLit c lg⟩] :=
+  literal_block_text E cfg ctx st i s pv c lg S p hbad hinc hmap hs hp
+
+/-- `<span about=s rel=pv resource=r>` ↦ `S p O` -/
+theorem rdfa_refines_denote_resource_text_partial (E : Env) (cfg : Cfg) (ctx : Ctx) (st : St) (i : Nat)
+    (s pv r S O p : Bytes) (hbad : st.bad = none) (hinc : ctx.incomplete = []) (hmap : st.getMap ctx.listMapping = [])
+    (hs : refIRI ctx.prefixes s = some S) (ho : refIRI ctx.prefixes r = some O) (hp : predIRI ctx.prefixes pv = some p) :
+    (walk E cfg false ctx st (resBlock i s pv r)).bad = none ∧
+    (walk E cfg false ctx st (resBlock i s pv r)).out = st.out ++ [⟨.iri S, p, .iri O⟩] :=
+  resource_block_text E cfg ctx st i s pv r S O p hbad hinc hmap hs ho hp
+
+/-- @datatype + @content: `<span about=s property=pv content=c datatype=d lang="">` ↦ `S p "c"^^dt` for every datatype other
+    than the two language-string datatypes, rdf:XMLLiteral and rdf:HTML (which the decoder treats differently) -/
+theorem rdfa_refines_denote_typed_partial (E : Env) (cfg : Cfg) (ctx : Ctx) (st : St) (i : Nat) (s pv c d S p dt : Bytes)
+    (hbad : st.bad = none) (hinc : ctx.incomplete = []) (hmap : st.getMap ctx.listMapping = [])
+    (hs : refIRI ctx.prefixes s = some S) (hp : predIRI ctx.prefixes pv = some p) (hd : refIRI ctx.prefixes d = some dt)
+    (hd0 : dt ≠ []) (hd1 : dt ≠ rdfLangString) (hd2 : dt ≠ rdfDirLangString) (hd3 : dt ≠ rdfXMLLiteral) (hd4 : dt ≠ rdfHTML) :
+    (walk E cfg false ctx st (typedBlock i s pv c d)).bad = none ∧
+    (walk E cfg false ctx st (typedBlock i s pv c d)).out = st.out ++ [⟨.iri S, p, .lit c dt none⟩] :=
+  typed_block_text E cfg ctx st i s pv c d S p dt hbad hinc hmap hs hp hd hd0 hd1 hd2 hd3 hd4
+
+/-- @typeof: `<span about=s typeof=ty>` ↦ `S rdf:type T` (typed resource = the @about subject) -/
+theorem rdfa_refines_denote_typeof_partial (E : Env) (cfg : Cfg) (ctx : Ctx) (st : St) (i : Nat) (s ty S T : Bytes)
+    (hbad : st.bad = none) (hinc : ctx.incomplete = []) (hmap : st.getMap ctx.listMapping = [])
+    (hs : refIRI ctx.prefixes s = some S) (ht : typeIRI ctx.prefixes ty = some T) :
+    (walk E cfg false ctx st (typeofBlock i s ty)).bad = none ∧
+    (walk E cfg false ctx st (typeofBlock i s ty)).out = st.out ++ [⟨.iri S, rdfType, .iri T⟩] :=
+  typeof_block_text E cfg ctx st i s ty S T hbad hinc hmap hs ht
+
+/-- chaining with an incomplete triple across one nesting level:
+    `<div about=s rel=pv><span about=o property=qv content=c lang=lg/></div>` ↦ `O q "c" . S p O`, in that order (the order
+    `C11.rdfa_chaining` gives for the denotation); the hanging @rel's blank node is made and never mentioned -/
+theorem rdfa_refines_denote_chaining_partial (E : Env) (cfg : Cfg) (ctx : Ctx) (st : St) (i j : Nat)
+    (s pv o qv c lg S p O q : Bytes) (hbad : st.bad = none) (hinc : ctx.incomplete = [])
+    (hmap : st.getMap ctx.listMapping = [])
+    (hs : refIRI ctx.prefixes s = some S) (hp : predIRI ctx.prefixes pv = some p)
+    (ho : refIRI ctx.prefixes o = some O) (hq : predIRI ctx.prefixes qv = some q) :
+    (walk E cfg false ctx st (chainBlock i j s pv o qv c lg)).bad = none ∧
+    (walk E cfg false ctx st (chainBlock i j s pv o qv c lg)).out =
+      st.out ++ [⟨.iri O, q, plainLit c lg⟩, ⟨.iri S, p, .iri O⟩] :=
+  chain_block_text E cfg ctx st i j s pv o qv c lg S p O q hbad hinc hmap hs hp ho hq
+
+/-- @rev chaining across one nesting level: `<div about=s rev=pv><span about=o property=qv content=c lang=lg/></div>` ↦
+    `O q "c" . O p S` -/
+theorem rdfa_refines_denote_rev_chaining_partial (E : Env) (cfg : Cfg) (ctx : Ctx) (st : St) (i j : Nat)
+    (s pv o qv c lg S p O q : Bytes) (hbad : st.bad = none) (hinc : ctx.incomplete = [])
+    (hmap : st.getMap ctx.listMapping = [])
+    (hs : refIRI ctx.prefixes s = some S) (hp : predIRI ctx.prefixes pv = some p)
+    (ho : refIRI ctx.prefixes o = some O) (hq : predIRI ctx.prefixes qv = some q) :
+    (walk E cfg false ctx st (revChainBlock i j s pv o qv c lg)).bad = none ∧
+    (walk E cfg false ctx st (revChainBlock i j s pv o qv c lg)).out =
+      st.out ++ [⟨.iri O, q, plainLit c lg⟩, ⟨.iri O, p, .iri S⟩] :=
+  rev_chain_block_text E cfg ctx st i j s pv o qv c lg S p O q hbad hinc hmap hs hp ho hq
+
+/-- @inlist: `<span about=s property=pv content=c lang=lg inlist>` whose subject differs from the parent subject (so that step 8
+    starts a new list mapping and step 14 of this element emits it) ↦ a one-cell list `b first "c" . b rest nil . S p b` with
+    `b` the next blank node.  `hlm`, `hfresh`: the context's list mapping exists and does not mention the list id about to be
+    allocated (heap well-formedness; true for every state `walk` reaches — not proved here). -/
+theorem rdfa_refines_denote_inlist_partial (E : Env) (cfg : Cfg) (ctx : Ctx) (st : St) (i : Nat) (s pv c lg S p : Bytes)
+    (hbad : st.bad = none) (hinc : ctx.incomplete = [])
+    (hps : ∀ z, ctx.parentSubject = some z → subjEq z (.iri S) = false)
+    (hlm : ctx.listMapping < st.maps.length) (hfresh : alookup p (st.getMap ctx.listMapping) ≠ some st.lists.length)
+    (hs : refIRI ctx.prefixes s = some S) (hp : predIRI ctx.prefixes pv = some p) :
+    (walk E cfg false ctx st (inlistBlock i s pv c lg)).bad = none ∧
+    (walk E cfg false ctx st (inlistBlock i s pv c lg)).out =
+      st.out ++ [⟨.bn st.nextBn, rdfFirst, plainLit c lg⟩, ⟨.bn st.nextBn, rdfRest, .iri rdfNil⟩,
+                 ⟨.iri S, p, .bnode st.nextBn⟩] :=
+  inlist_block_text E cfg ctx st i s pv c lg S p hbad hinc hps hlm hfresh hs hp
+
+/-- the text-level hypotheses are decidable and hold for ordinary markup: an absolute IRI, a CURIE with `ex` in scope -/
+example : refIRI [(asc "ex", asc "http://v/")] (asc "http://a.example/x") = some (asc "http://a.example/x") ∧
+    predIRI [(asc "ex", asc "http://v/")] (asc " ex:p ") = some (asc "http://v/p") ∧
+    typeIRI [(asc "ex", asc "http://v/")] (asc "ex:T") = some (asc "http://v/T") ∧
+    refIRI [(asc "ex", asc "http://v/")] (asc "ex") = none ∧ refIRI [(asc "ex", asc "http://v/")] (asc "_:b") = none := by decide
 
 /-- the hypotheses of the two block theorems hold for a non-trivial context: an absolute IRI subject and object, a CURIE
     predicate, under the example oracle -/
